@@ -227,3 +227,124 @@ Qed.
 Example tame_example_ok : tame_path [SKey (AStr (s2p "a""b][c.d e")); SIdx 3; SKey (AHalf (-3)); SKey ANone;
                                       SKey (AStr []); SKey (ABool true); SKey (AInt (-7))] = true.
 Proof. vm_compute. reflexivity. Qed.
+
+(* ---------- the result dictionary, exactly ---------- *)
+
+(* two tame key sequences that both lead somewhere in the same object and have the same text
+   are the same key sequence (an int key and a position print alike, but a value is not both a
+   dictionary and a list) *)
+Lemma located_norm_inj : forall q1 q2 (obj : xvalue) w1 w2,
+  PathModel.norm (map to_pkey q1) = PathModel.norm (map to_pkey q2) ->
+  tame_path q1 = true -> tame_path q2 = true ->
+  get_at obj q1 = Some w1 -> get_at obj q2 = Some w2 -> q1 = q2.
+Proof.
+  induction q1 as [|s1 r1 IH]; intros [|s2 r2] obj w1 w2 Hn Ht1 Ht2 Hg1 Hg2; try discriminate; auto.
+  cbn [map PathModel.norm] in Hn. unfold PathModel.norm in Hn. cbn [map] in Hn. inversion Hn as [[Hk Hr]].
+  cbn [tame_path forallb] in Ht1, Ht2. apply andb_true_iff in Ht1. apply andb_true_iff in Ht2.
+  destruct Ht1 as [Hs1 Ht1], Ht2 as [Hs2 Ht2].
+  cbn [get_at] in Hg1, Hg2.
+  destruct (child obj s1) as [c1|] eqn:Hc1; [|discriminate].
+  destruct (child obj s2) as [c2|] eqn:Hc2; [|discriminate].
+  assert (Hs : s1 = s2).
+  { destruct s1 as [a1|i1|n1], s2 as [a2|i2|n2]; cbn [to_pkey PathModel.key_atom] in Hk;
+      try (unfold tame_step in Hs1; cbn in Hs1; discriminate);
+      try (unfold tame_step in Hs2; cbn in Hs2; discriminate).
+    - congruence.
+    - destruct obj; cbn [child] in Hc1, Hc2; discriminate.
+    - destruct obj; cbn [child] in Hc1, Hc2; discriminate.
+    - inversion Hk as [Hz]. apply Nat2Z.inj in Hz. congruence. }
+  subst s2. rewrite Hc1 in Hc2. inversion Hc2; subst c2. f_equal.
+  apply (IH r2 c1 w1 w2); auto.
+Qed.
+
+Lemma located_render_inj : forall brepr q1 q2 (obj : xvalue) w1 w2,
+  tame_path q1 = true -> tame_path q2 = true ->
+  get_at obj q1 = Some w1 -> get_at obj q2 = Some w2 ->
+  render brepr q1 = render brepr q2 -> q1 = q2.
+Proof.
+  intros brepr q1 q2 obj w1 w2 Ht1 Ht2 Hg1 Hg2 E.
+  rewrite (render_tame brepr q1 Ht1), (render_tame brepr q2 Ht2) in E.
+  apply (located_norm_inj q1 q2 obj w1 w2); auto.
+  apply PathProofs.render_inj; auto using tame_path_ok.
+Qed.
+
+Lemma upsert_other : forall V k (v : V) d k' v', pystr_eqb k k' = false -> In (k', v') d -> In (k', v') (upsert k v d).
+Proof.
+  intros V k v d k' v' Hne. induction d as [|[k0 v0] r IH]; intro H; [destruct H|]. cbn [upsert].
+  destruct (pystr_eqb k k0) eqn:E.
+  - destruct H as [H|H]; [|right; exact H]. inversion H; subst. congruence.
+  - destruct H as [H|H]; [left; exact H|right; auto].
+Qed.
+
+(* when all the reports that share a text carry the same value, each of them is an entry of the
+   text-keyed dictionary *)
+Lemma matched_values_complete : forall brepr evs q v,
+  (forall q' v', In (EvValue q' v') evs -> render brepr q' = render brepr q -> v' = v) ->
+  In (EvValue q v) evs -> In (render brepr q, v) (matched_values brepr evs).
+Proof.
+  intros brepr evs q v. unfold matched_values.
+  induction evs as [|e l IH] using rev_ind; intros Hsame Hin; [destruct Hin|].
+  rewrite fold_left_app. cbn [fold_left].
+  assert (Hsame' : forall q' v', In (EvValue q' v') l -> render brepr q' = render brepr q -> v' = v).
+  { intros q' v' H. apply Hsame. apply in_or_app. left. exact H. }
+  apply in_app_or in Hin. destruct e as [p w|p w|p n|p].
+  - destruct (pystr_eqb (render brepr p) (render brepr q)) eqn:E.
+    + apply pystr_eqb_eq in E. assert (w = v) by (apply (Hsame p w); [apply in_or_app; right; left; reflexivity|exact E]).
+      subst w. rewrite E. apply upsert_has.
+    + apply upsert_other; [exact E|]. destruct Hin as [Hin|[Hin|[]]]; [apply IH; auto|].
+      inversion Hin; subst. rewrite pystr_eqb_refl in E. discriminate.
+  - destruct Hin as [Hin|[Hin|[]]]; [apply IH; auto|discriminate].
+  - destruct Hin as [Hin|[Hin|[]]]; [apply IH; auto|discriminate].
+  - destruct Hin as [Hin|[Hin|[]]]; [apply IH; auto|discriminate].
+Qed.
+
+(* THE RESULT DICTIONARY matched_values (keyed by path text, verbose_level 2) is exactly the set of
+   (text of q, value) for the reported locations q, provided the reported paths are tame: then no two
+   reported locations share a text *)
+Theorem result_dict_exact_partial :
+  forall (slower brepr : pystr -> pystr) (re_search excl_re : pystr -> bool) (re_text : pystr)
+         (sa ba : list pystr) (c : config) (item : value) (obj : xvalue) (cs : bool)
+         (it : eitem) (evs : list event),
+    xwf obj = true ->
+    prepare slower brepr c item = PItem cs it ->
+    deep_search slower brepr re_search excl_re re_text sa ba c item obj = ROk evs ->
+    (forall q v, In (EvValue q v) evs -> tame_path q = true) ->
+    forall (t : pystr) (v : xvalue),
+      In (t, v) (matched_values brepr evs) <->
+      exists q : path, render brepr q = t /\ In (q, v) (matches_spec slower brepr re_search excl_re c cs it obj).
+Proof.
+  intros slower brepr re_search excl_re re_text sa ba c item obj cs it evs Hwf Hp Hr Htame t v.
+  pose proof (final_values_exact _ _ _ _ _ _ _ _ _ _ _ _ _ Hwf Hp Hr) as Hex.
+  split.
+  - intro H. apply (proj1 (matched_values_spec brepr evs)) in H. destruct H as [q [Hq Hin]].
+    exists q. split; auto. apply Hex. exact Hin.
+  - intros [q [Hq Hin]]. subst t. apply Hex in Hin. apply matched_values_complete; auto.
+    intros q' v' Hin' E.
+    destruct (final_sound _ _ _ _ _ _ _ _ _ _ _ _ _ Hwf Hp Hr q v Hin) as [Hg _].
+    destruct (final_sound _ _ _ _ _ _ _ _ _ _ _ _ _ Hwf Hp Hr q' v' Hin') as [Hg' _].
+    assert (q' = q) by (apply (located_render_inj brepr q' q obj v' v); eauto).
+    subst q'. congruence.
+Qed.
+
+(* ... and not in general: two locations with one text (the key "a']['b" beside the key "a" of a
+   dictionary with the key "b"): the dictionary keeps ONE of the two reported values *)
+Definition amb_val :=
+  VDict [(AStr (s2p "a']['b"), VAtom (AStr (s2p "x")));
+         (AStr (s2p "a"), VDict [(AStr (s2p "b"), VAtom (AStr (s2p "xy")))])].
+Theorem result_dict_refuted :
+  exists evs q v,
+    wf amb_val = true /\
+    deep_search lower id_repr no_re no_re [] [] [] k16f_cfg k16g_item (inj amb_val) = ROk evs /\
+    In (EvValue q v) evs /\ ~ In (render id_repr q, v) (matched_values id_repr evs).
+Proof.
+  eexists. exists [SKey (AStr (s2p "a']['b"))], (XAtom (AStr (s2p "x"))).
+  split; [reflexivity|]. split; [vm_compute; reflexivity|]. split; [left; reflexivity|].
+  vm_compute. intros [H|[]]. inversion H.
+Qed.
+
+(* the guard of result_dict_exact_partial holds on the run of guards_satisfiable (two value reports) *)
+Example result_dict_guard_satisfiable :
+  forall q v, In (EvValue q v) guard_evs -> tame_path q = true.
+Proof.
+  intros q v [H|[H|[H|[]]]]; try discriminate; inversion H; subst; vm_compute; reflexivity.
+Qed.
